@@ -3,7 +3,7 @@
 //! All values are small integers so every comparison is exact.
 
 use crate::dense::*;
-use crate::ensure;
+
 use crate::util::*;
 use clarabel::algebra::*;
 use clarabel::verif_hooks::{csc_gemv, csc_symv};
